@@ -35,6 +35,26 @@ def parseSpec : List String → Option Snd
     some ⟨format, chunksOf 6 nulls, sc = "1", p1, rate, frac, loops, hdr, samples, trailing⟩
   | _ => none
 
+/-- `n/<params>` or `s/<soundCmd>/<p1>/<rate>/<frac>/<loops>/<hdr>/<samples>/<gap>` -/
+def parseItem (s : String) : Option Item :=
+  match s.splitOn "/" with
+  | ["n", ps] => do let ps ← bytesOfHex ps; some (.null ps)
+  | ["s", sc, p1, rate, frac, loops, hdr, samples, gap] => do
+    let p1 ← bytesOfHex p1; let rate ← parseNat rate; let frac ← bytesOfHex frac; let loops ← bytesOfHex loops
+    let hdr ← parseHeader hdr; let samples ← bytesOfHex samples; let gap ← bytesOfHex gap
+    some (.sound ⟨sc = "1", p1, rate, frac, loops, hdr, samples, gap⟩)
+  | _ => none
+
+/-- `<fmt> <dtsHex|refHex> <trailingHex> <item>...` -/
+def parseMulti : List String → Option Multi
+  | fmt :: a :: trailing :: items => do
+    let a ← bytesOfHex a
+    let format ← if fmt = "1" then some (Format.fmt1 (chunksOf 6 a)) else if fmt = "2" then some (Format.fmt2 a) else none
+    let trailing ← bytesOfHex trailing
+    let items ← items.mapM parseItem
+    some ⟨format, items, trailing⟩
+  | _ => none
+
 def WavRead.toJ : WavParams × Bytes → J
   | (p, d) => .obj [("ch", J.nat p.channels), ("width", J.nat p.width), ("rate", J.nat p.rate), ("frames", J.hex d)]
 
@@ -57,6 +77,11 @@ def run : List String → Option String
     let s ← parseSpec spec
     some (J.obj [("hex", J.hex (encode s)), ("valid", .bool (decide (Valid s))),
                  ("expected", (expected s).toJ)]).render
+  | "menc" :: c :: b :: spec => do
+    let c ← parseNat c; let b ← parseNat b
+    let m ← parseMulti spec
+    some (J.obj [("hex", J.hex (encodeMulti m)), ("valid", .bool (decide m.Valid)), ("homogeneous", .bool (decide (Homogeneous m c b))),
+                 ("expected", (expectedMulti m c b).toJ)]).render
   | ["wav", h] => do
     let b ← bytesOfHex h
     some (wavObs b).render
